@@ -1,5 +1,10 @@
 package main
 
+import (
+	"fmt"
+	"strings"
+)
+
 // C01: every implemented instruction has exactly its Z80-defined effect in
 // every state. ENUM engine against refz80: all implemented encodings x the
 // register lattice x all 256 F; complete post-state, memory image, port
@@ -14,7 +19,35 @@ func init() {
 func checkC01(c *Ctx) {
 	c.Rule = "every encoding of the measured implemented set x lattice (4 all-distinct base vectors; each of 20 dimensions varied alone over its boundary set; aliasing pairs; index+d and PC-wrap pairs; all 256 d for indexed forms; thorough: all value pairs of the 9 pointer dimensions) x all 256 F; one real Step compared with refz80 on the complete state, the memory image and the port writes. Lattice points that coincide for an encoding are skipped (hash set), so cases are distinct; non-trivial = post-state differs from pre-state beyond PC/R or a data/port access happened (counted)."
 	c.Bound = "lattice v1 " + c.Tier
+	var slow chan string
+	if !c.Quick() {
+		// silicon slow path (DESIGN §3): the pristine zexdoc/zexall/prelim images executed on refz80
+		// behind the minimal BIOS, concurrently with the enumeration (2 cores, ~5 min)
+		slow = make(chan string, 1)
+		go func() {
+			ok, rep := selfcheckRefImages(c.Verif, true)
+			if !ok {
+				rep = "FAILED: " + rep
+			}
+			slow <- rep
+		}()
+	}
+	if ok, rep := selfcheckRefCRC(c.Verif); !ok {
+		fmt.Println("framework error: refz80 no longer reproduces the silicon CRCs; refusing to judge the tree:", rep)
+		c.Capped("framework error: reference model self-check failed")
+		return
+	} else {
+		c.Set("reference_model_selfcheck", rep)
+	}
 	runStepConformance(c, stepConfOpts{name: "c01/step", aspects: AspState | AspI | AspMem | AspPortsOut})
+	if slow != nil {
+		rep := <-slow
+		c.Set("reference_model_silicon_slow_path", rep)
+		if strings.HasPrefix(rep, "FAILED") {
+			fmt.Println("framework error:", rep)
+			c.Capped("framework error: reference model slow path failed")
+		}
+	}
 	c.Assume("refz80 reproduces the zexdoc/zexall CRCs (vz80 selfcheck refcrc, run by setup_cmd)")
 	c.Assume("policy table of DESIGN §6 (SCF/CCF and BIT n,(mem) bits 3/5 not compared; block-I/O undocumented flags preserved-or-silicon; RETI IFF1)")
 	c.Assume("register files outside the lattice are not explored")
